@@ -4,6 +4,7 @@ CONSTANTS
   Ids <- IdsQ
   Lens <- LensQ
   Depth = 1
+  BigTN <- BigQ
   MaxN = 3
   Deviations <- DevD7
   Emit = TRUE
